@@ -901,6 +901,9 @@ pub fn c12_check_one(rep: &mut Report, c: &ReplCase, s: &S) {
             }
         }
     }
+    if c.hay.len() >= 1024 {
+        rep.tally("haystacks_of_1_kib_or_more");
+    }
     if rep.want_sample() && str_ms.len() < ms.len() && ms.len() >= 2 && c.hay.len() < 60 {
         rep.sample(
             J::obj()
@@ -916,7 +919,9 @@ pub fn c12_check_one(rep: &mut Report, c: &ReplCase, s: &S) {
 
 pub fn gen_repl_case(rng: &mut Rng) -> ReplCase {
     let alpha = utf8_alphabet(rng);
-    let hlen = rng.range(0, 14);
+    // mostly short; one case in 25 has a haystack of 1000..4000 characters
+    // (implementations may switch strategy for long inputs)
+    let hlen = if rng.chance(1, 25) { rng.range(1000, 4000) } else { rng.range(0, 14) };
     let mut hay = String::new();
     for _ in 0..hlen {
         hay.push_str(*rng.pick(&alpha));
